@@ -816,6 +816,10 @@ func errClass(stateFile, store string) string {
 		// a foreground read that joined the singleflight fetch of a cancellable background
 		// fetch inherits that fetch's cancellation (fs/remote/blob.go fetchRange)
 		return ":context-canceled"
+	case strings.Contains(stateFile, "discard of remaining -"):
+		// db store: readInnerChunks lists every chunk of a node once per stream entry of that
+		// node, the duplicate makes fileReader.ReadAt discard a negative count
+		return ":negative-discard@" + store
 	case strings.Contains(stateFile, "context deadline exceeded"):
 		return ":deadline-exceeded"
 	case strings.Contains(stateFile, "failed to fetch region"):
